@@ -70,7 +70,16 @@ func evalByteCondEnv(cond ssa.Value, bv ssa.Value, b int64, env map[*ssa.Phi]ssa
 			r, ok := evalByteCondEnv(u.X, bv, b, env)
 			return !r, ok
 		}
+		if cl, isC := cond.(*ssa.Call); isC {
+			return evalBytePredicate(cl, bv, b, 0)
+		}
 		return false, false
+	}
+	// comparisons of booleans (e.g. pred(b) == true) are not byte comparisons
+	if (bo.Op == token.EQL || bo.Op == token.NEQ) && isBoolType(bo.X.Type()) {
+		l, ok1 := evalByteCondEnv(bo.X, bv, b, env)
+		r, ok2 := evalByteCondEnv(bo.Y, bv, b, env)
+		return (l == r) == (bo.Op == token.EQL), ok1 && ok2
 	}
 	var l, r int64
 	lx, rx := stripConv(bo.X), stripConv(bo.Y)
@@ -110,14 +119,204 @@ func evalByteCondEnv(cond ssa.Value, bv ssa.Value, b int64, env map[*ssa.Phi]ssa
 
 // pureOnByte: the instruction is part of the comparison tree (no side effect).
 func pureOnByte(in ssa.Instruction) bool {
-	switch in.(type) {
+	switch x := in.(type) {
 	case *ssa.BinOp, *ssa.Convert, *ssa.ChangeType, *ssa.If, *ssa.Jump, *ssa.UnOp, *ssa.DebugRef, *ssa.Phi:
 		if u, ok := in.(*ssa.UnOp); ok && u.Op != token.NOT {
 			return false
 		}
 		return true
+	case *ssa.Call:
+		// a call of a module predicate whose body is itself a pure decision over its arguments
+		if cal := staticCallee(x); cal != nil && IsModule(cal) && pureDecisionFunc(cal, 0) {
+			return true
+		}
 	}
 	return false
+}
+
+// pureDecisionFunc: fn returns one bool and consists only of comparisons, conversions, branches,
+// phis and calls of functions of the same kind (no memory access, no other calls).
+func pureDecisionFunc(fn *ssa.Function, d int) bool {
+	if d > 4 || len(fn.Blocks) == 0 || fn.Signature.Results().Len() != 1 || !isBoolType(fn.Signature.Results().At(0).Type()) {
+		return false
+	}
+	for _, b := range fn.Blocks {
+		for _, in := range b.Instrs {
+			switch x := in.(type) {
+			case *ssa.BinOp, *ssa.Convert, *ssa.ChangeType, *ssa.If, *ssa.Jump, *ssa.DebugRef, *ssa.Phi, *ssa.Return:
+			case *ssa.UnOp:
+				if x.Op != token.NOT && x.Op != token.SUB {
+					return false
+				}
+			case *ssa.Call:
+				cal := staticCallee(x)
+				if cal == nil || !IsModule(cal) || cal == fn || !pureDecisionFunc(cal, d+1) {
+					return false
+				}
+			default:
+				return false
+			}
+		}
+	}
+	return true
+}
+
+// evalBytePredicate evaluates a call of a pure decision function whose arguments are the byte
+// (possibly converted) or constants, by walking the callee with the byte's value.
+func evalBytePredicate(cl *ssa.Call, bv ssa.Value, b int64, d int) (bool, bool) {
+	cal := staticCallee(cl)
+	if cal == nil || !IsModule(cal) || d > 4 || !pureDecisionFunc(cal, 0) {
+		return false, false
+	}
+	vals := map[ssa.Value]int64{}
+	for i, a := range cl.Call.Args {
+		if i >= len(cal.Params) {
+			return false, false
+		}
+		if stripConv(a) == bv {
+			vals[cal.Params[i]] = b
+		} else if n, ok := constInt(a); ok {
+			vals[cal.Params[i]] = n
+		} else {
+			return false, false
+		}
+	}
+	return runDecision(cal, vals, d)
+}
+
+// runDecision interprets a pure decision function for concrete integer arguments.
+func runDecision(fn *ssa.Function, vals map[ssa.Value]int64, d int) (bool, bool) {
+	bools := map[ssa.Value]bool{}
+	var intOf func(v ssa.Value) (int64, bool)
+	intOf = func(v ssa.Value) (int64, bool) {
+		if n, ok := vals[v]; ok {
+			return n, true
+		}
+		if n, ok := constInt(v); ok {
+			return n, true
+		}
+		switch x := v.(type) {
+		case *ssa.Convert:
+			return intOf(x.X)
+		case *ssa.ChangeType:
+			return intOf(x.X)
+		}
+		return 0, false
+	}
+	var boolOf func(v ssa.Value) (bool, bool)
+	boolOf = func(v ssa.Value) (bool, bool) {
+		if r, ok := bools[v]; ok {
+			return r, true
+		}
+		switch x := v.(type) {
+		case *ssa.Const:
+			if x.Value != nil && x.Value.Kind() == constant.Bool {
+				return constant.BoolVal(x.Value), true
+			}
+		case *ssa.UnOp:
+			if x.Op == token.NOT {
+				r, ok := boolOf(x.X)
+				return !r, ok
+			}
+		case *ssa.BinOp:
+			if isBoolType(x.X.Type()) && (x.Op == token.EQL || x.Op == token.NEQ) {
+				l, ok1 := boolOf(x.X)
+				r, ok2 := boolOf(x.Y)
+				return (l == r) == (x.Op == token.EQL), ok1 && ok2
+			}
+			l, ok1 := intOf(x.X)
+			r, ok2 := intOf(x.Y)
+			if !ok1 || !ok2 {
+				return false, false
+			}
+			switch x.Op {
+			case token.EQL:
+				return l == r, true
+			case token.NEQ:
+				return l != r, true
+			case token.LSS:
+				return l < r, true
+			case token.LEQ:
+				return l <= r, true
+			case token.GTR:
+				return l > r, true
+			case token.GEQ:
+				return l >= r, true
+			}
+		case *ssa.Call:
+			cal := staticCallee(x)
+			if cal == nil || d > 4 {
+				return false, false
+			}
+			sub := map[ssa.Value]int64{}
+			for i, a := range x.Call.Args {
+				n, ok := intOf(a)
+				if !ok || i >= len(cal.Params) {
+					return false, false
+				}
+				sub[cal.Params[i]] = n
+			}
+			return runDecision(cal, sub, d+1)
+		}
+		return false, false
+	}
+	blk := fn.Blocks[0]
+	var prev *ssa.BasicBlock
+	for steps := 0; steps < 400; steps++ {
+		if prev != nil {
+			pi := -1
+			for i, p := range blk.Preds {
+				if p == prev {
+					pi = i
+				}
+			}
+			upd := map[ssa.Value]bool{}
+			updI := map[ssa.Value]int64{}
+			for _, in := range blk.Instrs {
+				ph, ok := in.(*ssa.Phi)
+				if !ok {
+					break
+				}
+				if pi < 0 {
+					return false, false
+				}
+				if isBoolType(ph.Type()) {
+					if r, ok := boolOf(ph.Edges[pi]); ok {
+						upd[ph] = r
+					}
+				} else if n, ok := intOf(ph.Edges[pi]); ok {
+					updI[ph] = n
+				}
+			}
+			for k, v := range upd {
+				bools[k] = v
+			}
+			for k, v := range updI {
+				vals[k] = v
+			}
+		}
+		switch t := blk.Instrs[len(blk.Instrs)-1].(type) {
+		case *ssa.If:
+			r, ok := boolOf(t.Cond)
+			if !ok {
+				return false, false
+			}
+			prev = blk
+			if r {
+				blk = blk.Succs[0]
+			} else {
+				blk = blk.Succs[1]
+			}
+		case *ssa.Jump:
+			prev = blk
+			blk = blk.Succs[0]
+		case *ssa.Return:
+			return boolOf(t.Results[0])
+		default:
+			return false, false
+		}
+	}
+	return false, false
 }
 
 // byteDecision evaluates the decision tree that starts right after the definition of bv.
